@@ -6,6 +6,7 @@ import GeonumModel.Lemmas.Exact
 import GeonumModel.Props.C05
 import GeonumModel.Lemmas.FloatTrig
 import GeonumModel.Lemmas.FloatProject
+import GeonumModel.Spec.RoundWitness
 
 set_option linter.unusedSectionVars false
 set_option linter.unusedVariables false
@@ -233,5 +234,17 @@ end E
 
 
 example {F : Type} [FloatSpec F] : (⟨zero, 7⟩ : Angle F).Inv := inv_zero 7
+
+
+/-! ### R — on the arithmetic that really rounds (`R64`: round-to-nearest on the binary64 grid, correctly rounded libm) -/
+section R
+
+/-- (R) `adj`/`opp` magnitudes for every binary64 number in the domain -/
+theorem adj_opp_mag_rounded {g : Geonum R64} (hg : g.angle.Inv) (hm : g.MagDom) :
+    abs (g.adj.mag.v - g.mag.v * abs (Real.cos (Angle.Tpi g.angle))) ≤ g.mag.v * (6 / 10 ^ 15 + 1 / 2 ^ 53) + 1 / 10 ^ 30 ∧
+    abs (g.opp.mag.v - g.mag.v * abs (Real.sin (Angle.Tpi g.angle))) ≤ g.mag.v * (6 / 10 ^ 15 + 1 / 2 ^ 53) + 1 / 10 ^ 30 :=
+  adj_opp_mag_float (F := R64) hg hm
+
+end R
 
 end GeonumModel.C15
